@@ -931,7 +931,12 @@ impl<'a> Gen<'a> {
             if visual {
                 if self.rng.chance(0.85) {
                     let ft: Vec<f64> = o.2.iter().map(|p| ((*p as f64 + self.rng.normal() * 0.02) as f32) as f64).collect();
-                    d.insert("feature".into(), json!(ft));
+                    // now and then an EMPTY feature vector: a real (zero-padded) feature, not "no feature"
+                    if self.rng.chance(0.05) {
+                        d.insert("feature".into(), json!(Vec::<f64>::new()));
+                    } else {
+                        d.insert("feature".into(), json!(ft));
+                    }
                 }
                 if self.rng.chance(0.8) {
                     d.insert("quality".into(), json!(*self.rng.pick(&[0.125f64, 0.25, 0.5, 0.75, 1.0])));
